@@ -522,7 +522,8 @@ void svt_cdef_sb_row_mt(EbDecHandle *dec_handle, int32_t *mi_wide_l2, int32_t *m
         if (sb_fbr) {
             if (sb_fbc == pic_width_in_sb - 1)
                 nsync = 0;
-            while (*cdef_completed_in_prev_row < (sb_fbc + nsync))
+            // the cell holds the number of completed superblock columns of the row (0 = nothing done yet)
+            while (*cdef_completed_in_prev_row < (uint32_t)(sb_fbc + 1 + nsync))
                 ;
             //Sleep(5); /* ToDo : Change */
         }
@@ -583,7 +584,7 @@ void svt_cdef_sb_row_mt(EbDecHandle *dec_handle, int32_t *mi_wide_l2, int32_t *m
                 dec_mt_frame_data->cdef_linebuf_stride);
         }
         /* Update Top-Right Sync*/
-        *cdef_completed_in_row = sb_fbc;
+        *cdef_completed_in_row = sb_fbc + 1;
     }
 }
 
